@@ -13,21 +13,21 @@ import (
 // Obligation is one proof obligation: under the first NPre prelude assertions,
 // Reach /\ not Cond must be unsatisfiable.
 type Obligation struct {
-	Name   string // fully qualified: <funckey>/<kind>...
-	Kind   string
-	Cond   Term
-	Reach  Term
-	NPre   int // number of prelude asserts visible
-	NDecl  int
-	Pos    string
-	Note   string
-	Func   *FuncVC
+	Name    string // fully qualified: <funckey>/<kind>...
+	Kind    string
+	Cond    Term
+	Reach   Term
+	NPre    int // number of prelude asserts visible
+	NDecl   int
+	Pos     string
+	Note    string
+	Func    *FuncVC
 	Trivial bool
-	noSplit bool // already a case of an edge split  // the condition simplified to true while it was generated (discharged syntactically)
-	Raw    string // raw SMT-LIB text (bit-vector lemmas); replaces the generated query
-	Expect string // "unsat" normally; "sat" for must-fail twins / covers
-	Vars   []string // interesting model vars
-	Block  *ssa.BasicBlock
+	noSplit bool     // already a case of an edge split  // the condition simplified to true while it was generated (discharged syntactically)
+	Raw     string   // raw SMT-LIB text (bit-vector lemmas); replaces the generated query
+	Expect  string   // "unsat" normally; "sat" for must-fail twins / covers
+	Vars    []string // interesting model vars
+	Block   *ssa.BasicBlock
 }
 
 // State is the symbolic state at a program point.
@@ -73,60 +73,60 @@ type FuncVC struct {
 	escapes map[*ssa.Alloc]bool
 	tuples  map[ssa.Value][]Term
 
-	heapSort map[string]string
-	entry    *State
-	params   map[string]Term // contract-visible names -> entry values
-	paramTy  map[string]types.Type
+	heapSort    map[string]string
+	entry       *State
+	params      map[string]Term // contract-visible names -> entry values
+	paramTy     map[string]types.Type
 	ghostParams map[string]Term
 
 	reach    map[*ssa.BasicBlock]Term
 	out      map[*ssa.BasicBlock]*State
 	edgeCond map[[2]int]Term
 
-	loops     []*loopInfo // in source order
-	loopOf    map[*ssa.BasicBlock]*loopInfo
-	fresh     int
-	cur       *State
-	curReach  Term
-	curBlock  *ssa.BasicBlock
-	Errors    []string // reasons this function is out of reach
-	Trusted   map[string]bool
-	callCount map[string]int
-	oblCount  map[string]int
-	names     map[*ssa.Alloc]string // source names of cells
-	retCount  int
-	bv        bool
+	loops        []*loopInfo // in source order
+	loopOf       map[*ssa.BasicBlock]*loopInfo
+	fresh        int
+	cur          *State
+	curReach     Term
+	curBlock     *ssa.BasicBlock
+	Errors       []string // reasons this function is out of reach
+	Trusted      map[string]bool
+	callCount    map[string]int
+	oblCount     map[string]int
+	names        map[*ssa.Alloc]string // source names of cells
+	retCount     int
+	bv           bool
 	abstractBSeq bool
-	MathInt      bool // signed overflow obligations were assumed (opt mathint)
+	MathInt      bool            // signed overflow obligations were assumed (opt mathint)
 	lastAbs      map[string]Term // abstract accumulator results of the latest call (for after-clauses)
-	usedAxioms map[string]bool
-	defers    []deferred
-	iterPos   map[ssa.Value]*ssa.Alloc
-	mode      string
-	rangeIters map[*ssa.Range]string // ghost name of iterator position
-	localNames map[string]*ssa.Alloc
-	stringLits map[string]Term
-	localSlices map[ssa.Value]localSlice
-	castChecked map[*ssa.Range]bool
-	mapKeySorts map[string]string
-	usedSpecs   map[string]bool
-	forceAxioms map[string]bool
-	noAxioms    map[string]bool
-	axioms      []string
-	lemmaName   string
-	tablesUsed  map[string]bool
-	regTabsUsed map[string]bool
-	inFinish    bool
-	noStepFrame bool
-	curPos      token.Pos
-	strictState *State
-	stackCells  []stackCell
-	heapType    map[string]types.Type
-	callOrd     map[ssa.Instruction]int
-	assertBlk   []int // block index during which each assert was emitted (-1: global)
-	inEdges     map[int][]Term // incoming edge conditions of merge blocks (for case splits of undecided obligations)
-	assertTag   map[int]string // asserts that stem from a property-tagged obligation (assume-after-assert)
-	anc         map[int]map[int]bool
+	usedAxioms   map[string]bool
+	defers       []deferred
+	iterPos      map[ssa.Value]*ssa.Alloc
+	mode         string
+	rangeIters   map[*ssa.Range]string // ghost name of iterator position
+	localNames   map[string]*ssa.Alloc
+	stringLits   map[string]Term
+	localSlices  map[ssa.Value]localSlice
+	castChecked  map[*ssa.Range]bool
+	mapKeySorts  map[string]string
+	usedSpecs    map[string]bool
+	forceAxioms  map[string]bool
+	noAxioms     map[string]bool
+	axioms       []string
+	lemmaName    string
+	tablesUsed   map[string]bool
+	regTabsUsed  map[string]bool
+	inFinish     bool
+	noStepFrame  bool
+	curPos       token.Pos
+	strictState  *State
+	stackCells   []stackCell
+	heapType     map[string]types.Type
+	callOrd      map[ssa.Instruction]int
+	assertBlk    []int          // block index during which each assert was emitted (-1: global)
+	inEdges      map[int][]Term // incoming edge conditions of merge blocks (for case splits of undecided obligations)
+	assertTag    map[int]string // asserts that stem from a property-tagged obligation (assume-after-assert)
+	anc          map[int]map[int]bool
 }
 
 type stackCell struct {
@@ -286,15 +286,15 @@ func (fv *FuncVC) oblige(kind string, what string, cond Term, pos token.Pos, not
 	n := fv.oblCount[base]
 	fv.oblCount[base] = n + 1
 	o := &Obligation{
-		Name:   fmt.Sprintf("%s/%s#%d", fv.Key, base, n),
-		Kind:   kind,
-		Cond:   cond,
-		Reach:  fv.curReach,
-		NPre:   len(fv.asserts),
-		NDecl:  len(fv.decls),
-		Pos:    fv.pos(pos),
-		Note:   note,
-		Func:   fv,
+		Name:    fmt.Sprintf("%s/%s#%d", fv.Key, base, n),
+		Kind:    kind,
+		Cond:    cond,
+		Reach:   fv.curReach,
+		NPre:    len(fv.asserts),
+		NDecl:   len(fv.decls),
+		Pos:     fv.pos(pos),
+		Note:    note,
+		Func:    fv,
 		Expect:  "unsat",
 		Block:   fv.curBlock,
 		Trivial: trivial,
